@@ -288,6 +288,7 @@ func schedRun(raw json.RawMessage) (interface{}, error) {
 		out["labels"] = c.Labels
 	} else if paused {
 		out["labelsBefore"] = c.LabelsUpTo(a.PauseAt - 1)
+		out["labelsOfHeldAfter"] = c.LabelsOfHeldAfter()
 	}
 	return out, nil
 }
